@@ -128,8 +128,13 @@ type grpClientState struct {
 	onJoin     func()
 	onRejoin   func() // at a later JoinGroup of the call that carries an empty member id (rejoin after a fence)
 	onSync     func()
-	joinN      int  // JoinGroup requests of the current call
-	holdResp   bool // Close was called during this JoinGroup: its answer is held until Close had its chance to run
+	persist    string // "sync" | "join": EVERY SyncGroup / JoinGroup of the current call is answered REBALANCE_IN_PROGRESS
+	persistN   int    // ... refusals so far
+	persistCl  bool   // ... and the group is closed at the third refusal
+	quiet      bool   // ... after 8 refusals the call's join / sync traffic is no longer recorded (a spinning loop must not
+	// look like progress to the watchdog nor flood the trace)
+	joinN    int  // JoinGroup requests of the current call
+	holdResp bool // Close was called during this JoinGroup: its answer is held until Close had its chance to run
 }
 
 type grpSim struct {
@@ -160,6 +165,7 @@ type grpSim struct {
 	hbOK        int             // heartbeats answered OK (the watchdog's clock)
 	hbSeen      map[string]int  // heartbeat requests seen per client
 	closeRet    map[string]bool // Close of this client's group has returned
+	closer      map[string]func()
 	nretry      int             // refused coordinator lookups / initial OffsetFetches (a watchdog clock: a retry loop is spinning)
 	lookupFail  map[string]bool // coordinator lookups of this client are answered COORDINATOR_NOT_AVAILABLE
 	lookupLate  map[string]bool // ... from the moment its JoinGroup was answered NOT_COORDINATOR (scripted)
@@ -188,6 +194,7 @@ func newGrpSim(rec *vRec, sc *grpScenario) (*grpSim, error) {
 	s.failOff = map[string]int{}
 	s.hbSeen = map[string]int{}
 	s.closeRet = map[string]bool{}
+	s.closer = map[string]func(){}
 	s.lookupFail = map[string]bool{}
 	s.lookupLate = map[string]bool{}
 	s.lookupN = map[string]int{}
@@ -693,6 +700,32 @@ func (s *grpSim) holdUntilCloseRan(cl string) {
 	}
 }
 
+func (s *grpSim) evq(cs *grpClientState, ev string, f kv) {
+	if !cs.quiet {
+		s.rec.Ev(ev, f)
+	}
+}
+
+// refuse (s.mu held): the rebalance does not settle - this SyncGroup / JoinGroup of the call is answered REBALANCE_IN_PROGRESS
+// like all the others. The n-th refusal is recorded with the budget the code has (Rebalance.Retry.Max + 1 rounds).
+func (s *grpSim) refuse(cl string, cs *grpClientState, what string) {
+	cs.persistN++
+	s.nretry++
+	max := 3
+	if s.sc.RRetry != nil {
+		max = *s.sc.RRetry + 1
+	}
+	s.evq(cs, what, kv{"c": cl, "err": "rebalance", "mid": "", "gen": -1, "claims": []int{}, "n": cs.persistN, "max": max})
+	if cs.persistN == 3 && cs.persistCl {
+		if c := s.closer[cl]; c != nil {
+			c()
+		}
+	}
+	if cs.persistN >= 8 {
+		cs.quiet = true
+	}
+}
+
 // touch restarts the member's session timer (enforced session timeout)
 func (s *grpSim) touch(mid string) {
 	if s.sc.SessTO > 0 {
@@ -782,7 +815,7 @@ func (s *grpSim) handleJoin(cl string, r *JoinGroupRequest) (encoderWithHeader, 
 		s.simErr("join from unknown client " + cl)
 		return nil, true
 	}
-	s.rec.Ev("join_req", kv{"c": cl, "mid": r.MemberId})
+	s.evq(cs, "join_req", kv{"c": cl, "mid": r.MemberId})
 	cs.joinN++
 	if f := cs.onJoin; f != nil {
 		cs.onJoin = nil
@@ -791,8 +824,12 @@ func (s *grpSim) handleJoin(cl string, r *JoinGroupRequest) (encoderWithHeader, 
 		cs.onRejoin = nil
 		f()
 	}
+	if cs.persist == "join" {
+		s.refuse(cl, cs, "join_resp")
+		return &JoinGroupResponse{Version: r.Version, Err: ErrRebalanceInProgress, GenerationId: -1}, false
+	}
 	fail := func(kind string) (encoderWithHeader, bool) {
-		s.rec.Ev("join_resp", kv{"c": cl, "err": kind, "mid": "", "gen": -1})
+		s.evq(cs, "join_resp", kv{"c": cl, "err": kind, "mid": "", "gen": -1})
 		if kind == "conn" {
 			return nil, true
 		}
@@ -855,7 +892,7 @@ func (s *grpSim) handleJoin(cl string, r *JoinGroupRequest) (encoderWithHeader, 
 				s.holdUntilCloseRan(cl)
 			}
 			s.touch(res.MemberId)
-			s.rec.Ev("join_resp", kv{"c": cl, "err": "ok", "mid": res.MemberId, "gen": int(res.GenerationId)})
+			s.evq(cs, "join_resp", kv{"c": cl, "err": "ok", "mid": res.MemberId, "gen": int(res.GenerationId)})
 			return res, false
 		}
 		if s.state == "Preparing" && s.allJoined() {
@@ -889,13 +926,17 @@ func (s *grpSim) handleSync(cl string, r *SyncGroupRequest) (encoderWithHeader, 
 	if cs == nil {
 		return nil, true
 	}
-	s.rec.Ev("sync_req", kv{"c": cl, "mid": r.MemberId, "gen": int(r.GenerationId)})
+	s.evq(cs, "sync_req", kv{"c": cl, "mid": r.MemberId, "gen": int(r.GenerationId)})
 	if f := cs.onSync; f != nil {
 		cs.onSync = nil
 		f()
 	}
+	if cs.persist == "sync" {
+		s.refuse(cl, cs, "sync_resp")
+		return &SyncGroupResponse{Err: ErrRebalanceInProgress}, false
+	}
 	fail := func(kind string) (encoderWithHeader, bool) {
-		s.rec.Ev("sync_resp", kv{"c": cl, "err": kind, "claims": []int{}})
+		s.evq(cs, "sync_resp", kv{"c": cl, "err": kind, "claims": []int{}})
 		if kind == "conn" {
 			return nil, true
 		}
@@ -922,7 +963,9 @@ func (s *grpSim) handleSync(cl string, r *SyncGroupRequest) (encoderWithHeader, 
 			return fail("rebalance")
 		}
 		if s.state == "Completing" && r.MemberId == s.leader {
-			s.recordPlan(cl, r)
+			if !cs.quiet {
+				s.recordPlan(cl, r)
+			}
 			for id, a := range r.GroupAssignments {
 				if mm := s.members[id]; mm != nil {
 					mm.assignment = a
@@ -933,7 +976,7 @@ func (s *grpSim) handleSync(cl string, r *SyncGroupRequest) (encoderWithHeader, 
 		}
 		if s.state == "Stable" {
 			s.touch(r.MemberId)
-			s.rec.Ev("sync_resp", kv{"c": cl, "err": "ok", "claims": grpClaimsOf(m.assignment)})
+			s.evq(cs, "sync_resp", kv{"c": cl, "err": "ok", "claims": grpClaimsOf(m.assignment)})
 			return &SyncGroupResponse{MemberAssignment: m.assignment}, false
 		}
 		s.cond.Wait()
@@ -1333,7 +1376,8 @@ func (c *grpClient) fireL(at string, sess ConsumerGroupSession, simLocked bool) 
 			// (simLocked) the answer of the JoinGroup in flight is held until Close had its chance to run
 			c.run.sim.clients[c.name].holdResp = true
 		}
-	case "nocoord_close", "nocoord_late_close":
+	case "nocoord_close", "nocoord_late_close", "sync_rebalance_forever", "sync_rebalance_forever_close", "join_rebalance_forever",
+		"join_rebalance_forever_close":
 		// armed by the driver at the start of the call (no steering point is ever reached)
 	case "ofetch_fail", "ofetch_fail_conn", "ofetch_fail_close", "ofetch_fail_load", "ofetch_fail_load_close":
 		// armed when the SyncGroup request arrives: the session's initial OffsetFetch fails for good
@@ -1622,7 +1666,15 @@ func (c *grpClient) drive() {
 		delete(r.sim.lookupLate, c.name)
 		delete(r.sim.lookupN, c.name)
 		delete(r.sim.onLookup, c.name)
+		cs.persist, cs.persistN, cs.persistCl, cs.quiet = "", 0, false, false
+		r.sim.closer[c.name] = c.doClose
 		switch ss.Trig.Kind {
+		case "sync_rebalance_forever", "sync_rebalance_forever_close":
+			cs.persist = "sync"
+			cs.persistCl = ss.Trig.Kind == "sync_rebalance_forever_close"
+		case "join_rebalance_forever", "join_rebalance_forever_close":
+			cs.persist = "join"
+			cs.persistCl = ss.Trig.Kind == "join_rebalance_forever_close"
 		case "nocoord_close": // the coordinator cannot be found from the start of this call; Close during the retry loop
 			r.sim.lookupFail[c.name] = true
 			r.sim.onLookup[c.name] = c.doClose
